@@ -48,10 +48,10 @@ def run(out, tier, seed):
     cases = []
     sigs_all = {}
     if tier == "quick":
-        plans = [(5, ["p1", "p3", "p4", "bad"]), (4, ["p6", "p1", "p4"]), (4, ["p7", "p8", "p9"]), (4, ["p10", "p1", "p4"]), (4, ["bad3", "p1", "p4"]), (4, ["p11", "p1", "p8"]), (5, ["p12", "p13"]), (4, ["p14", "p15", "p1"]), (4, ["p2", "p4", "p1"], True), (4, ["p16", "p4", "bad4"]), (4, ["p17", "p4", "p1"])]
+        plans = [(5, ["p1", "p3", "p4", "bad"]), (4, ["p6", "p1", "p4"]), (4, ["p7", "p8", "p9"]), (4, ["p10", "p1", "p4"]), (4, ["bad3", "p1", "p4"]), (4, ["p11", "p1", "p8"]), (5, ["p12", "p13"]), (4, ["p14", "p15", "p1"]), (4, ["p2", "p4", "p1"], True), (4, ["p16", "p4", "bad4"]), (4, ["p17", "p4", "p1"]), (4, ["p9", "p16"])]
     else:
         plans = [(6, ["p1", "p3", "p4", "bad"]), (5, ["p2", "p5", "p4", "bad2"]), (5, ["p1", "p2", "p3", "p4", "p5"]),
-                 (5, ["p6", "p1", "p4", "bad2"]), (5, ["p7", "p8", "p9", "p1"]), (5, ["p10", "p1", "p2", "bad"]), (5, ["bad3", "p1", "p3", "p4"]), (5, ["p11", "p1", "p7", "p8"]), (6, ["p12", "p13"]), (5, ["p12", "p13", "p1"]), (5, ["p14", "p15", "p1", "p2"]), (5, ["p2", "p4", "p1", "p14"], True), (5, ["p16", "p4", "bad4", "p1"]), (5, ["p17", "p4", "p6", "p1"])]
+                 (5, ["p6", "p1", "p4", "bad2"]), (5, ["p7", "p8", "p9", "p1"]), (5, ["p10", "p1", "p2", "bad"]), (5, ["bad3", "p1", "p3", "p4"]), (5, ["p11", "p1", "p7", "p8"]), (6, ["p12", "p13"]), (5, ["p12", "p13", "p1"]), (5, ["p14", "p15", "p1", "p2"]), (5, ["p2", "p4", "p1", "p14"], True), (5, ["p16", "p4", "bad4", "p1"]), (5, ["p17", "p4", "p6", "p1"]), (5, ["p9", "p16", "p1"])]
     for plan in plans:
         maxops, uni, incall = plan[0], plan[1], len(plan) > 2
         hists, sigs = L.explore(out, maxops, uni, f"LifeMechMC[{maxops},{'+'.join(uni)}{',in-call' if incall else ''}]", incall=incall)
